@@ -765,7 +765,7 @@ SET_FILES = ["padding.py", "grid_ufunc.py", "metadata_parsers.py", "comodo.py", 
 
 class SetSites(ast.NodeVisitor):
     """Flags iteration over expressions that are statically set-typed: set()/frozenset()
-    calls, set displays/comprehensions, |,&,-,^ of those, and local names bound to them."""
+    calls, set displays/comprehensions, |,&,-,^ of those or of dictionary views, and local names bound to them."""
 
     def __init__(self, fname):
         self.fname = fname
@@ -781,7 +781,10 @@ class SetSites(ast.NodeVisitor):
         if isinstance(e, ast.Name) and e.id in self.setnames:
             return True
         if isinstance(e, ast.BinOp) and isinstance(e.op, (ast.BitOr, ast.BitAnd, ast.Sub, ast.BitXor)):
-            return self.is_set(e.left) or self.is_set(e.right)
+            # set algebra on dictionary views (d.keys() | other, d.items() & other, ...) yields a plain set
+            view = lambda x: isinstance(x, ast.Call) and isinstance(x.func, ast.Attribute) and \
+                x.func.attr in ("keys", "items") and not x.args
+            return self.is_set(e.left) or self.is_set(e.right) or view(e.left) or view(e.right)
         if isinstance(e, ast.Call) and isinstance(e.func, ast.Attribute) and \
                 e.func.attr in ("union", "intersection", "difference", "symmetric_difference", "copy") \
                 and self.is_set(e.func.value):
